@@ -297,6 +297,28 @@ theorem sim_get {st : State} {a : Abs} (h : R st a) (cfg : Cfg) (p : Path) :
   simp only [step, specStep, get_eq_resolve h]
   exact ⟨trivial, h⟩
 
+theorem sim_info {st : State} {a : Abs} (h : R st a) (cfg : Cfg) (p : Path) :
+    (step cfg good st (.info p)).2 = (specStep cfg a (.info p)).2 ∧
+    R (step cfg good st (.info p)).1 (specStep cfg a (.info p)).1 := by
+  simp only [step, specStep, get_eq_resolve h]
+  refine ⟨?_, h⟩
+  cases hr : a.resolve (canonicalPath cfg p) with
+  | none => rfl
+  | some i =>
+    have hi : i < a.n := by
+      have hg : get cfg good st p = some i := by rw [get_eq_resolve h, hr]
+      unfold get at hg
+      split at hg
+      · cases hg
+      · next j hl =>
+        split at hg
+        · cases hg
+          obtain ⟨s, hs, _⟩ := h.wf.2 _ _ hl
+          exact h.lt hs
+        · cases hg
+    obtain ⟨s, hs, hrel⟩ := h.stream hi
+    simp only [Option.map_some, pathOf, hs, h.ccOf hi, hrel.1]
+
 theorem R_postTask {st : State} {a : Abs} (h : R st a) (i : Nat) (b : Bool) :
     R (postTask st i b) { a with tasks := a.tasks ++ [(i, b, false)] } := by
   refine ⟨h.len, fun j s hs => (h.str j s hs).congr rfl rfl rfl rfl rfl, h.reg, ?_, ?_, h.now⟩
@@ -607,6 +629,7 @@ theorem step_sim {st : State} {a : Abs} (h : R st a) (cfg : Cfg) (op : Op) :
   | get p => exact sim_get h cfg p
   | count => exact sim_count h cfg
   | infos t n => exact sim_infos h cfg t n
+  | info p => exact sim_info h cfg p
   | postIdle i => exact sim_postIdle h cfg i
   | probe i => exact sim_probe h cfg i
 
